@@ -119,6 +119,25 @@ func genGo(g *Gen, depth int, forField bool) (interface{}, J) {
 			}
 			return av.Interface(), J{"g": "list", "array": true, "v": ds}
 		}
+		if g.pick(4) == 0 && n > 0 { // an ARRAY of bytes is an array like any other (only byte SLICES are binary data)
+			at := reflect.ArrayOf(n, reflect.TypeOf(uint8(0)))
+			av := reflect.New(at).Elem()
+			ds = []interface{}{}
+			for i := 0; i < n; i++ {
+				av.Index(i).SetUint(uint64(200 + i))
+				ds = append(ds, J{"g": "uint", "kind": "uint8", "v": strconv.Itoa(200 + i)})
+			}
+			return av.Interface(), J{"g": "list", "array": true, "v": ds}
+		}
+		if g.pick(4) == 0 && n > 0 { // typed slices and arrays of other widths
+			out := []uint32{}
+			ds = []interface{}{}
+			for i := 0; i < n; i++ {
+				out = append(out, uint32(i*70000))
+				ds = append(ds, J{"g": "uint", "kind": "uint32", "v": strconv.Itoa(i * 70000)})
+			}
+			return out, J{"g": "list", "v": ds}
+		}
 		if g.pick(3) == 0 && n > 0 { // typed slice
 			out := []int16{}
 			ds = []interface{}{}
@@ -314,6 +333,32 @@ func streamC18(c *Ctx) {
 		}
 		if i < 2 {
 			c.Sample(line)
+		}
+	}
+	// binary data: a byte SLICE - plain, of a named type, behind a pointer, inside a struct or a map - is kept as a []byte
+	{
+		type blob []byte
+		type holder struct {
+			B blob `clover:"b"`
+			P *[]byte
+		}
+		raw := []byte{0, 1, 254, 255}
+		for i, v := range []interface{}{raw, blob(raw), &raw, holder{B: blob(raw), P: &raw}, map[string]interface{}{"b": blob(raw), "P": raw}} {
+			res, err, pan := safeNormalize(v)
+			ok := pan == "" && err == nil
+			check := func(x interface{}) bool { b, is := x.([]byte); return is && string(b) == string(raw) }
+			if ok && i < 3 {
+				ok = check(res)
+			} else if ok {
+				m, _ := res.(map[string]interface{})
+				ok = m != nil && check(m["b"]) && check(m["P"])
+			}
+			c.Evals++
+			if !ok {
+				c.Violation(&Replay{Stream: "norm", Case: []interface{}{J{"k": "binary", "variant": i, "type": fmt.Sprintf("%T", v)}}, Actual: []string{fmt.Sprintf("%T %v", res, res), fmt.Sprint(err), pan},
+					Note: "a byte slice (plain, named, behind a pointer, in a struct or map) must be kept as a []byte with its content"})
+				return
+			}
 		}
 	}
 	if !c18SameNamedTypes(c, g) {
